@@ -28,7 +28,7 @@ ASSUMPTIONS = [
     "don't-care pairs (bool against float/complex, Any, Literal containing 1 vs True/1.0, str against Sequence) give no verdict",
     "with the switch off, non-node values in child fields are outside the statement (the digest needs child nodes); property fields accept any value",
 ]
-MUST_SEE = ["subclasses_defined_after_first_check", "fieldless_marker_classes", "field_names_resembling_builtin_ones", "ill_typed_origin", "mixin_inherited_fields", "failed_operations_with_checks_on", "same_annotation_text_other_type", "false_vs_bool", "bool_vs_int", "bool_vs_int_union", "bool_in_int_tuple", "fixed_tuple_too_long", "fixed_tuple_too_short", "multi_two_bad", "noninit_bad_default", "switch_off_same_node", "nonconforming", "conforming", "noncompare_fields_checked", "ill_typed_value_equal_to_default", "parent_used_before_subclass"]
+MUST_SEE = ["ill_typed_values_whose_repr_raises", "unions_of_parametrised_containers", "subclasses_defined_after_first_check", "fieldless_marker_classes", "field_names_resembling_builtin_ones", "ill_typed_origin", "mixin_inherited_fields", "failed_operations_with_checks_on", "same_annotation_text_other_type", "false_vs_bool", "bool_vs_int", "bool_vs_int_union", "bool_in_int_tuple", "fixed_tuple_too_long", "fixed_tuple_too_short", "multi_two_bad", "noninit_bad_default", "switch_off_same_node", "nonconforming", "conforming", "noncompare_fields_checked", "ill_typed_value_equal_to_default", "parent_used_before_subclass"]
 CONFIG = {
     "quick": {"shards": 16, "d2_sample": 150, "multi": 300, "watchdog_s": 600},
     "thorough": {"shards": 32, "d2_sample": 400, "multi": 600, "watchdog_s": 3400},
@@ -313,6 +313,43 @@ def run_shard(ctx):
             r[1].detach()
         if got != exp or first[0] != "ok":
             ctx.violation("conforming-rejected" if exp == [] else "invalid-fields-wrong", f"values of classes defined after the annotation was first checked: invalid fields {got}, expected {exp}", {"values": {k_: vrepr(v) for k_, v in kw.items()}})
+    # ... ill-typed values whose own repr / str raise: still the documented error with exactly the bad fields
+    class _BadRepr:
+        def __repr__(self):
+            raise LookupError("unresolved reference")
+
+        __str__ = __repr__
+
+    for kw, exp in ((dict(count=_BadRepr()), ["count"]), (dict(count=1, origin=_BadRepr()), ["origin"]), (dict(count=_BadRepr(), origin=_BadRepr()), ["count", "origin"])):
+        ctx.evaluations += 1
+        ctx.count("ill_typed_values_whose_repr_raises")
+        r = construct(IVLeaf, kw, True)
+        got = [] if r[0] == "ok" else r[1]
+        if r[0] == "ok":
+            r[1].detach()
+        if got != exp:
+            ctx.violation("nonconforming-accepted" if r[0] == "ok" else "invalid-fields-wrong", f"ill-typed value whose repr raises: outcome {str(got)[:150]}, expected InvalidTypes naming {exp}", {"fields": sorted(kw)})
+    # ... unions of several parametrised forms of one container: a value conforms if it conforms to any member, whatever the
+    # order of the members
+    for k_, (ann_, good_, bad_) in enumerate((
+        ("tuple[int, ...] | tuple[str, ...]", [("a", "b"), (1, 2), ()], [("a", 1), (1.5,)]),
+        ("tuple[str, ...] | tuple[int, ...]", [("a", "b"), (1, 2), ()], [("a", 1), (1.5,)]),
+        ("tuple[int, int] | tuple[int, int, int] | None", [(1, 2), (1, 2, 3), None], [(1,), (1, 2, 3, 4), (1, "a")]),
+        ("tuple[int, int, int] | tuple[int, int] | None", [(1, 2), (1, 2, 3), None], [(1,), (1, 2, 3, 4), (1, "a")]),
+        ("Sequence[float] | tuple[str, ...]", [("a",), (1.5, 2.5), ()], [("a", 1.5)]),
+        ("tuple[str, ...] | Sequence[float]", [("a",), (1.5, 2.5), ()], [("a", 1.5)]),
+    )):
+        src = f"@dataclass(frozen=True)\nclass {P}UU{k_}(ASTNode):\n    x: {ann_} = ()\n"
+        ns.setdefault("Sequence", __import__("typing").Sequence)
+        exec(compile(src, f"<c13 union {k_}>", "exec", dont_inherit=True), ns)
+        for v_, conf in [(g_, True) for g_ in good_] + [(b_, False) for b_ in bad_]:
+            ctx.evaluations += 1
+            ctx.count("unions_of_parametrised_containers")
+            r = construct(ns[f"{P}UU{k_}"], dict(x=v_), True)
+            if r[0] == "ok":
+                r[1].detach()
+            if (r[0] == "ok") != conf or (not conf and r[0] != "ok" and r[1] != ["x"]):
+                ctx.violation("conforming-rejected" if conf else "nonconforming-accepted", f"{ann_} with value {v_!r}: outcome {r[0]}", {"annotation": ann_, "value": repr(v_)})
     # ------------------------------------------------------------ single-field classes
     for k, a in enumerate(mine):
         ctx.case = ("single", k)
